@@ -118,7 +118,7 @@ def cases():
 
 
 def run(ctx):
-    for case in ctx.mine([dict(c, exact=False, real=False) for c in pairs.far_thin_family()]):
+    for case in ctx.mine([dict(c, exact=False, real=False) for c in pairs.far_thin_family() + pairs.corner_piece_family()]):
         body(case, ctx.rec)
     n = ctx.share(6400 if ctx.quick else 64000)
     explore(ctx, cases(), body, n)
